@@ -7,6 +7,47 @@ BASE_NOTE = ("Trusted: Coq 8.16.1 kernel (vm_compute for finite sweeps, no nativ
              "(Print Assumptions per theorem is checked on every run), tools/py2v.py translator, ExtrOcamlBasic extraction + "
              "ocaml/driver.ml, the Python correspondence harness; CPython/numpy behaviour is modelled, not verified.")
 CLAIMED = {
+ "C10": dict(
+   text="Theorems: the sub-field fast-path comparisons (<, <=, >, >= on the masked un-shifted byte against the shifted constant) equal numpy's comparison of "
+        "the field values for EVERY integer constant (any sign, magnitude, numpy integer width) - byte sweep over the generated masks plus monotonicity of "
+        "the shift; every operator a view class does not answer itself is a pure delegation to np.array(view) (operator routing, _do_comparison, max/min routes "
+        "and the __getitem__ branch list are read from the AST each run); for scaled views over integer grids with per-element scales, index-then-materialise = "
+        "materialise-then-numpy-index for all listed index forms and any chain of them, first-level results are values or well-formed views, min/max agree with "
+        "numpy under a monotone scaling. Correspondence/oracle: ~200k expressions E(view) vs E(np.array(view)) per run.",
+   design="5/C10", technique="Coq proof: byte sweep + shift monotonicity; structural delegation table from the AST; index/materialise commutation by induction; expression differential vs numpy",
+   note=BASE_NOTE + " numpy itself is the oracle for delegated operators; positive finite scales; index forms limited to those the property lists."),
+ "C11": dict(
+   text="Theorems over exact rationals: present (store v) is within s/2 of v, the stored integer is the nearest one, checked store/rescale return Ok X iff X is the "
+        "rounded quotient and fits in 32 bits, else EOverflow; over a round-to-nearest-even binary64 model written in Gallina over Z/Q: the same no-wrap characterisation "
+        "and a half-ulp bound per operation; over histories with an aliasing heap of scale/offset arrays (header replace / in-place edit, x/y/z and xyz assignment, "
+        "change_scaling, write, streaming into a writer of another scaling): the file carries the header's scaling, its integers are the record's or the rescaled ones and "
+        "always fit, failure is OverflowError only, and the caller's record is unchanged in every case. Guards and shapes are regenerated from the source each run.",
+   design="5/C11", technique="Coq proof: rational rounding lemmas, Gallina binary64 rounding model, invariant over aliasing histories; extracted model bit-exact vs numpy",
+   note=BASE_NOTE + " partial: the composed binary64 half-step bound (1/2 + |q| 2^-51 steps) is measured by the oracle, not proved; scales in [1e-9, 1e3], |offset| <= 1e9."),
+ "C15": dict(
+   text="Theorems over a model of the COPC traversal and query (key/child/bounds/overlap arithmetic, clip bounds and keep test translated from copc.py each run): on "
+        "well-formed octrees with enough fuel the traversal returns a permutation of exactly the nodes of the selected levels whose cube overlaps the box (touching "
+        "faces included), the query the multiset of their points passing rint(q0) <= X <= rint(q1) (at most half a step outside, everything inside kept, 2-D boxes take z "
+        "from the header), an enclosing box of any size returns everything, resolution selects levels 0..L with L least such that spacing/2^L <= resolution, a page that does "
+        "not describe the referenced node is ELaspy, empty interior nodes do not prune, and #references + 8 #nodes + 1 steps always suffice (termination, well-formed or not); "
+        "chunk grouping decodes in offset order. Harness builds COPC files in memory (fake_lazrs) and compares with the model and a brute-force filter.",
+   design="5/C15", technique="Coq proof: traversal invariant + decreasing measure, multiset (Permutation) reasoning, exact-arithmetic box filter; built COPC files vs CopcReader",
+   note=BASE_NOTE + " partial: float rounding of cube bounds and math.log2 are not modelled (generated octrees are dyadic); real lazrs decoding replaced by a conforming stand-in."),
+ "C16": dict(
+   text="Theorems over a transition system whose worker and main programs are EXTRACTED from HttpFetcherThread.run / http_queue_strategy / the executor strategy on "
+        "every run: for all schedules, any number of ranges and workers - with no failing request main returns the offset-sorted concatenation (= the local read), a "
+        "failing request makes main raise, every worker has exited, no reachable non-final state is stuck, a measure strictly decreases (termination, explicit step bound); "
+        "the executor's outcome is a function of the request alone and the pool is joined; regression witnesses: the old test-then-blocking-take loop, a shared stream and "
+        "completion-order assembly each have a schedule that deadlocks / returns wrong bytes. Harness: schedule replay of the real threads under a controller.",
+   design="5/C16", technique="Coq proof: invariant + progress + measure over all interleavings of a transition system generated from the source; schedule replay on real threads",
+   note=BASE_NOTE + " partial: the OS scheduler, sockets, requests, stdlib queue/futures internals are modelled by their documented blocking semantics; at least one worker."),
+ "C17": dict(
+   text="Theorems over a model of the access paths (source = bytes + capabilities, with a call log): for files whose EVLRs are adjacent to the last point (every file "
+        "laspy writes - proved from file_of) the result of reading is independent of seekability, readinto, read_evlrs and whole/chunked reading, equals read_file, zero-point "
+        "files included; a non-seekable source's log never contains Seek/Tell for ANY byte string; the memory map shows the same result and an assignment through it changes "
+        "only the bytes of the assigned field of the addressed point, visible to a later read. Prefetch constants and statement shapes are regenerated from the source.",
+   design="5/C17", technique="Coq proof: equivalence of reader paths over capability-indexed sources with call logs; locality of positioned writes; seven source kinds vs laspy",
+   note=BASE_NOTE + " partial: OS mmap write-back not modelled; compressed sources belong to C14 (one open known finding: empty LAZ + EVLRs + non-seekable)."),
  "C02": dict(
    text="Theorems: for all 11 point formats the layout dumped from the running module (names, byte offsets, widths, kinds, bit ranges of every "
         "sub-field) equals the layout typed in from the ASPRS tables (Spec/AsprsPoints.v), record lengths 20/28/26/34/57/63/30/36/38/59/67 plus "
